@@ -52,6 +52,7 @@ type sessOpts struct {
 	badPublishes    bool // include publishes on IDs that denote nothing
 	scriptedSuback  bool // the broker's SUBACKs are script steps with arbitrary codes (C03)
 	control         bool // include UNSUBSCRIBE / PUBREL / PINGREQ / broker acks (C03)
+	refusedRegisters bool // broker publishes on names without an ID whose REGISTER the client accepts, refuses or ignores (C01)
 	smallIDSpace    bool // scale the topic-ID space down so that exhaustion is reachable (C04)
 	maxSteps        int
 }
@@ -111,6 +112,9 @@ func genSession(t *rapid.T, o sessOpts) sessCase {
 		if o.smallIDSpace {
 			kinds = append(kinds, "register", "register-new", "register-new", "bpub-new")
 		}
+		if o.refusedRegisters {
+			kinds = append(kinds, "bpub-register", "bpub-register")
+		}
 		kind := rapid.SampledFrom(kinds).Draw(t, "kind")
 		if len(inflight) > 0 && kind != "bpub" {
 			inflight = map[uint16]bool{} // the next settling step completes them
@@ -131,6 +135,19 @@ func genSession(t *rapid.T, o sessOpts) sessCase {
 				bp.NoWait = true
 				sc.Steps = append(sc.Steps, bp, rg)
 			}
+		case "bpub-register":
+			// a broker PUBLISH on a plain name (which has an ID already, or makes the gateway send a
+			// REGISTER); the client accepts that REGISTER, refuses it, or never answers
+			auto := sc.Auto
+			switch rapid.IntRange(0, 3).Draw(t, "regack") {
+			case 0:
+				auto.ClientRegack = false
+			case 1, 2:
+				auto.RegackRC = byte(rapid.IntRange(1, 3).Draw(t, "regack_rc"))
+			}
+			sc.Steps = append(sc.Steps, gwgen.SetAuto(auto),
+				gwgen.MQ(gwgen.BPublish(rapid.SampledFrom(plainNames).Draw(t, "name"), byte(rapid.IntRange(0, 2).Draw(t, "qos")), 0x100+mid%0x100, []byte("b"), false, false)),
+				gwgen.SetAuto(sc.Auto))
 		case "register-new":
 			nextName++
 			sc.Steps = append(sc.Steps, gwgen.SN(gwgen.Register(fmt.Sprintf("n/%d", nextName), mid)))
@@ -282,6 +299,16 @@ func (k *know) feed(i int, e gwsim.Event) {
 				if p.RC == 0 {
 					k.reg[g.TopicID] = g.TopicName
 					delete(k.grey, g.TopicID)
+				} else if _, def := k.reg[g.TopicID]; !def {
+					// the client refused the registration: the ID is not registered in this session
+					// (unless another registration of the same ID is still open)
+					open := false
+					for _, o := range k.gwReg {
+						open = open || o.TopicID == g.TopicID
+					}
+					if !open {
+						delete(k.grey, g.TopicID)
+					}
 				}
 			}
 		}
@@ -369,11 +396,11 @@ func endedBefore(tr *gwsim.Trace, ns int64) bool { return tr.Ended && tr.EndNs <
 func TestC01(t *testing.T) {
 	vf.Check(t, vf.Prop[sessCase]{
 		ID: "C01", Name: "client-publish-forwarded", Bubble: true,
-		Rule: "connected session (auth on/off, predefined map with client-specific and '*' entries over overlapping IDs/names, client ID inside/outside the map) with a history of REGISTER, SUBSCRIBE (plain, wildcard, short, predefined; broker grants/refuses), interleaved with client PUBLISH steps over DUP x QoS{-1,0,1,2} x retain x topic-ID type {0,1,2,3}, IDs registered / never handed out / predefined visible, shadowed or absent / short names, payload 0..7168 boundary-biased, message IDs from a small pool. Non-trivial = a publish whose topic ID was introduced by an earlier step of the script (registered ID), or a predefined ID defined for both the client and '*', or a publish that must be refused; distinct by script.",
-		Assumptions: []string{"IDs in a grey zone (handed out in a SUBACK the broker refused, or in a gateway REGISTER not yet acknowledged) may or may not denote: either outcome passes",
+		Rule: "connected session (auth on/off, predefined map with client-specific and '*' entries over overlapping IDs/names, client ID inside/outside the map) with a history of REGISTER, SUBSCRIBE (plain, wildcard, short, predefined; broker grants/refuses) and broker PUBLISHes on plain names whose REGISTER the client accepts, refuses (return codes 1-3) or never answers, interleaved with client PUBLISH steps over DUP x QoS{-1,0,1,2} x retain x topic-ID type {0,1,2,3}, IDs registered / never handed out / predefined visible, shadowed or absent / short names, payload 0..7168 boundary-biased, message IDs from a small pool. Non-trivial = a publish whose topic ID was introduced by an earlier step of the script (registered ID), or a predefined ID defined for both the client and '*', or a publish that must be refused; distinct by script.",
+		Assumptions: []string{"IDs in a grey zone (handed out in a SUBACK the broker refused, or in a gateway REGISTER not yet acknowledged) may or may not denote: either outcome passes; an ID from a gateway REGISTER which the client refused denotes nothing",
 			"DUP=1 with QoS 0/-1 and message ID 0 with QoS 1/2 cannot be valid MQTT (C24): forwarding is optional, but if forwarded it must be unchanged"},
 		Gen: func(t *rapid.T) sessCase {
-			return genSession(t, sessOpts{clientPublishes: true, badPublishes: true, maxSteps: 10})
+			return genSession(t, sessOpts{clientPublishes: true, badPublishes: true, refusedRegisters: true, maxSteps: 10})
 		},
 		Run: func(c sessCase) (r vf.Result) {
 			tr := gwsim.Run(c.Script)
